@@ -185,7 +185,7 @@ func replayRaw(c *Ctx, raw json.RawMessage) {
 }
 
 func checkC03(c *Ctx) {
-	c.rule = "MC: the reference grammar never over-reports (Bounded) over all strings up to MaxLen. TRACE (C03Rule = no panic/fault and ok => 0 <= n <= len, evaluated by TLC): hostile inputs from the grammar-directed generators (every cut point, structural bytes x boundary values, size fields x hostile sizes, foreign and >= 0x80 type bytes, nesting to 70) into the five skippers (thrift.Binary.Skip also flush against guard pages), the scalar/header/message readers (buffer and stream), Base/BaseResp/ApplicationException.FastRead, FastUnmarshal, UnmarshalFastMsg, ConvertUnknownFields/GetUnknownFields and ttheader.DecodeFromBytes/Decode. SWEEP (Go monitor; C03Rule is the whole expectation): every byte string of length <= 2 (thorough: 3 for the skippers) over the full alphabet into every entry point, and under every one of the 256 type bytes into the allocation-free skippers; every 4-/2-/1-byte window of a corpus of valid encodings (scalars, headers, messages, Base/BaseResp/ApplicationException, a struct with every field type, random values, TTHeader frames) x hostile values (MaxInt32-4..MaxInt32, sign boundary, small negatives, powers of two) and relative changes (+1..+4, -1, -2 on the 1-, 2- and 4-byte reading), each also cut right after the window, into every entry point and the skippers. DEEP CHAINS (Go monitor, child processes): nesting of 6 Mi (thorough 12 Mi) levels along each path of the grammar (container as map key, map value, list element, set element, struct field, alternating) through the five skippers: the process survives and nothing over-reports. STACK-RESIDENT INPUTS: thrift.Binary.Skip also runs on every input (up to 1536 bytes) copied into a local array on a fresh goroutine that starts with the minimum stack, with goroutines parked on stacks of various sizes, so that the recursion has to move the stack (and the input) while skipping; deep chains cut short are part of the inputs. GIANT FIELDS (Go monitor): the shipped structs and Skip meet an unknown string field of 2^30+7 .. 2^31-1 bytes that is really present (lazily mapped)."
+	c.rule = "MC: the reference grammar never over-reports (Bounded) over all strings up to MaxLen. TRACE (C03Rule = no panic/fault and ok => 0 <= n <= len, evaluated by TLC): hostile inputs from the grammar-directed generators (every cut point, structural bytes x boundary values, size fields x hostile sizes, foreign and >= 0x80 type bytes, nesting to 70) into the five skippers (thrift.Binary.Skip also flush against guard pages), the scalar/header/message readers (buffer and stream), Base/BaseResp/ApplicationException.FastRead, FastUnmarshal, UnmarshalFastMsg, ConvertUnknownFields/GetUnknownFields and ttheader.DecodeFromBytes/Decode. SWEEP (Go monitor; C03Rule is the whole expectation): every byte string of length <= 2 (thorough: 3 for the skippers) over the full alphabet into every entry point, and under every one of the 256 type bytes into the allocation-free skippers; every 4-/2-/1-byte window of a corpus of valid encodings (scalars, headers, messages, Base/BaseResp/ApplicationException, a struct with every field type, random values, TTHeader frames) x hostile values (MaxInt32-4..MaxInt32, sign boundary, small negatives, powers of two) and relative changes (+1..+4, -1, -2 on the 1-, 2- and 4-byte reading), each also cut right after the window, into every entry point and the skippers. DEEP CHAINS (Go monitor, child processes): nesting of 6 Mi (thorough 12 Mi) levels along each path of the grammar (container as map key, map value, list element, set element, struct field, alternating) through the five skippers: the process survives and nothing over-reports. STACK-RESIDENT INPUTS: thrift.Binary.Skip also runs on every input (up to 1536 bytes) copied into a local array on a fresh goroutine that starts with the minimum stack, with goroutines parked on stacks of various sizes, so that the recursion has to move the stack (and the input) while skipping; deep chains cut short are part of the inputs. GIANT FIELDS (Go monitor): the shipped structs and Skip meet an unknown string field of 2^30+7 .. 2^31-1 bytes that is really present (lazily mapped). The corpus also holds values valid for one entry point and landing at another (maps of other key / value types under the Extra field ids ...), fed unmutated and mutated."
 	mcSkip(c, "MC_ThriftSkip_small.cfg")
 	c.TraceCheck(famSkipC03, hostileSkipCases(c, c.Pick(100, 2500), 3))
 	c.TraceCheck(famWireC03, hostileWireCases(c))
